@@ -65,6 +65,9 @@ def row_kinds(fmt):
         kinds.append(("nonnum", c))
     if fmt == "euroc":
         kinds.append(("short", None))
+    # rows with far too few fields (1, 2, 4)
+    for k in (1, 2, 4):
+        kinds.append(("nfields", k))
     # defective rows that contain the comment character somewhere
     kinds.append(("inline-hash", None))
     kinds.append(("hash-field", 1))
@@ -95,6 +98,8 @@ def render_row(fmt, kind, rowid):
         return d.join(f) + d, "defect"
     if name == "doubled":
         return d.join(f[:2]) + d + d + d.join(f[2:]), "defect"
+    if name == "nfields":
+        return d.join(f[:arg]), "defect"
     if name == "inline-hash":
         return d.join(f) + d + "#" + d + "lost", "defect"
     if name == "hash-field":
